@@ -630,6 +630,7 @@ def clause_g_segments(P, rep):
         d = L.dom1(p.state, "self*#d")
         eff = [(e[0], e[1], e[2]) for e in p.events if e[0] in ('store', 'push')]
         empty = addressed = same_type = None
+        type_facts = []
         for e, t in p.conds:
             sh = sx.show(e)
             if sh.endswith(".items#len == 0)"):
@@ -642,14 +643,25 @@ def clause_g_segments(P, rep):
             if m:
                 # (ne(..) == 0) holds: equal types
                 same_type = t if m.group(1) == "ne" else (not t)
-        per.setdefault(dv.get(d) if d is not None else None, []).append((p.exit, empty, addressed, same_type, eff))
+            # the same comparison inlined: the discriminant of the current segment's type against a constant
+            m = re.search(r"\.t#d == (0x[0-9a-f]+|\d+)\)$", sh)
+            if m:
+                tdisc = int(m.group(1), 0)
+                type_facts.append((tdisc, t))
+        per.setdefault(dv.get(d) if d is not None else None, []).append((p.exit, empty, addressed, same_type, eff, type_facts))
     # paths whose directive is not pinned by a condition belong to the `_ => Code` default of the inner match: attribute by effect
     for dname, tname in want_t.items():
         rows = per.get(dname, []) + [r for r in per.get(None, [])]
         okd = True
         why = ""
         seen_nonempty = seen_empty = False
-        for exit_, empty, addressed, same_type, eff in rows:
+        segd = {v["name"]: int(v["discr"]) for v in P.lib.adts["parser::SegmentType"]["variants"]}
+        for exit_, empty, addressed, same_type, eff, type_facts in rows:
+            for tdisc, truth in type_facts:
+                if tdisc == segd.get(tname):
+                    same_type = truth
+                elif truth:
+                    same_type = False
             if exit_ != "Ok":
                 okd, why = False, "a segment directive can fail"
                 continue
